@@ -556,16 +556,20 @@ class MetadorGroup(MetadorNode):
             del self.__wrapped__[dst_node.name.rstrip("/") + M.METADOR_TOC_PATH]
 
         if src_is_dataset and not without_meta:
-            # because metadata lives in parallel group, need to copy separately:
-            src_meta: str = src_node.meta._base_dir
+            # because metadata lives in parallel group, need to copy separately
+            # (from the container of the source node, which may be a different one):
+            src_raw_cont = src_node._self_container.__wrapped__
+            src_meta_node = src_raw_cont.get(src_node.meta._base_dir)
             dst_meta: str = dst_node.meta._base_dir  # node will not exist yet
-            self.__wrapped__.copy(src_meta, dst_meta, **copy_kwargs)  # RAW
+            if src_meta_node is not None:  # source has metadata attached
+                self.__wrapped__.copy(src_meta_node, dst_meta, **copy_kwargs)  # RAW
 
-            # register in TOC:
-            dst_meta_node = self.__wrapped__[dst_meta]
-            assert isinstance(dst_meta_node, H5GroupLike)
-            missing = self._self_container.metador._links.find_missing(dst_meta_node)
-            self._self_container.metador._links.repair_missing(missing)
+                # register in TOC:
+                dst_meta_node = self.__wrapped__[dst_meta]
+                assert isinstance(dst_meta_node, H5GroupLike)
+                links = self._self_container.metador._links
+                missing = links.find_missing(dst_meta_node)
+                links.repair_missing(missing)
 
         if not src_is_dataset:
             if without_meta:
